@@ -854,19 +854,46 @@ func ruleScan(w *core.World, r *core.Report) {
 					okConst = true
 				}
 			}
-			for _, in := range core.Instrs(g) {
+			// every path of the scan callback that indexes a segment has established size > 0 (directly, or
+			// through a helper that answers nil for an empty segment)
+			isAppend := func(in ssa.Instruction) bool {
 				c, isC := in.(*ssa.Call)
 				if !isC {
-					continue
+					return false
 				}
-				if b, isB := c.Call.Value.(*ssa.Builtin); !isB || b.Name() != "append" || !strings.HasSuffix(c.Type().String(), "dataSetAof") {
-					continue
+				b, isB := c.Call.Value.(*ssa.Builtin)
+				return isB && b.Name() == "append" && strings.HasSuffix(c.Type().String(), "dataSetAof")
+			}
+			has := false
+			for _, in := range core.OwnInstrs(g) {
+				if isAppend(in) {
+					has = true
 				}
-				for _, fct := range core.FactsAt(c.Block()) {
-					if cm, ok := core.AsCmp(fct.Cond, fct.Val); ok && cm.Op == token.GTR && isConstInt(0)(cm.Y) {
-						okSize = true
+			}
+			if has {
+				all, n := true, 0
+				core.EnumPaths(g.Blocks[0], 0, 100000, func(p *core.Path) {
+					indexed := false
+					for _, in := range p.Instrs {
+						if isAppend(in) {
+							indexed = true
+						}
 					}
-				}
+					if !indexed {
+						return
+					}
+					n++
+					pos := false
+					for _, fct := range p.Conds {
+						if cm, ok := core.AsCmp(p.Resolve(fct.Cond), fct.Val); ok && cm.Op == token.GTR && isConstInt(0)(cm.Y) {
+							pos = true
+						}
+					}
+					if !pos {
+						all = false
+					}
+				})
+				okSize = all && n > 0
 			}
 		}
 		r.Check(okConst, "initDataSet/ignores-temporary-snapshots", f.Pos(), "the scan must not accept '*.rdb.tmp' files (ParseRdbFile(name, false))")
@@ -902,49 +929,110 @@ func ruleTruncateGap(w *core.World, r *core.Report) {
 	if g := w.Func("(*pkg/store.Storer).initDataSet"); g != nil {
 		r.Check(len(core.SitesNamed(g, false, "(*pkg/store.dataSet).TruncateGap")) == 1, "initDataSet/truncates-before-publication", g.Pos(), "gaps must be truncated while the directory is scanned, before the data set is published")
 	}
-	// neighbour comparison Left() != Right()
-	var gapIf *ssa.BinOp
+	// neighbour comparison: Left() of element i against Right() of element i-1 (as != or as ==)
+	type gapCmp struct {
+		b   *ssa.BinOp
+		idx ssa.Value // the index i
+	}
+	var gaps []gapCmp
+	elemIndex := func(v ssa.Value) ssa.Value { // v = aofSegs[k]  ->  k
+		ld, ok := core.Unwrap(v).(*ssa.UnOp)
+		if !ok || ld.Op != token.MUL {
+			return nil
+		}
+		ia, ok := ld.X.(*ssa.IndexAddr)
+		if !ok {
+			return nil
+		}
+		return ia.Index
+	}
+	recvOf := func(v ssa.Value, method string) ssa.Value {
+		c, ok := core.Unwrap(v).(*ssa.Call)
+		if !ok || core.ResolveCall(c).Name != "(*pkg/store.dataSetAof)."+method || len(c.Call.Args) == 0 {
+			return nil
+		}
+		return c.Call.Args[0]
+	}
 	for _, in := range core.Instrs(f) {
 		b, ok := in.(*ssa.BinOp)
-		if ok && b.Op == token.NEQ && isResultOf("(*pkg/store.dataSetAof).Left", -1)(b.X) && isResultOf("(*pkg/store.dataSetAof).Right", -1)(b.Y) {
-			gapIf = b
+		if !ok || (b.Op != token.NEQ && b.Op != token.EQL) {
+			continue
+		}
+		l, rr := recvOf(b.X, "Left"), recvOf(b.Y, "Right")
+		if l == nil || rr == nil {
+			l, rr = recvOf(b.Y, "Left"), recvOf(b.X, "Right")
+		}
+		if l == nil || rr == nil {
+			continue
+		}
+		li, ri := elemIndex(l), elemIndex(rr)
+		if li == nil || ri == nil {
+			continue
+		}
+		if sub, ok := ri.(*ssa.BinOp); ok && sub.Op == token.SUB && sub.X == li && isConstInt(1)(sub.Y) {
+			gaps = append(gaps, gapCmp{b, li})
 		}
 	}
-	if gapIf == nil {
+	if len(gaps) == 0 {
 		r.Fail("TruncateGap/neighbour-comparison", f.Pos(), "no comparison of a segment's left edge with its predecessor's right edge")
 		return
 	}
+	gapIf := gaps[0].b
 	r.OK("TruncateGap/neighbour-comparison", gapIf.Pos(), "")
-	// in the gap branch: aofSegs = aofSegs[i:], rdb = nil
-	keepNew, dropRdb := false, false
-	for _, in := range core.Instrs(f) {
-		st, ok := in.(*ssa.Store)
-		if !ok {
-			continue
-		}
-		fa, ok := st.Addr.(*ssa.FieldAddr)
-		if !ok {
-			continue
-		}
-		inGap := false
-		for _, fct := range core.FactsAt(st.Block()) {
-			if fct.Val && fct.Cond == ssa.Value(gapIf) {
-				inGap = true
+	// every path that cuts the list cuts it at an index where that comparison found a gap, and the
+	// snapshot (which lies before every segment) stops being indexed on the same path
+	keepNew, dropRdb := false, true
+	cuts := 0
+	core.EnumPathsN(f.Blocks[0], 0, 200000, core.Unroll, func(p *core.Path) {
+		var low ssa.Value
+		nilRdb := false
+		for _, in := range p.Instrs {
+			st, ok := in.(*ssa.Store)
+			if !ok {
+				continue
+			}
+			fa, ok := st.Addr.(*ssa.FieldAddr)
+			if !ok {
+				continue
+			}
+			switch core.FieldName(fa) {
+			case "aofSegs":
+				if sl, ok := st.Val.(*ssa.Slice); ok && sl.Low != nil && sl.High == nil {
+					low = sl.Low
+				}
+			case "rdb":
+				if core.IsNilConst(st.Val) {
+					nilRdb = true
+				}
 			}
 		}
-		if !inGap {
-			continue
+		if low == nil {
+			return
 		}
-		switch core.FieldName(fa) {
-		case "aofSegs":
-			if sl, ok := st.Val.(*ssa.Slice); ok && sl.Low != nil && sl.High == nil {
-				keepNew = true
-			}
-		case "rdb":
-			if core.IsNilConst(st.Val) {
-				dropRdb = true
+		cuts++
+		atGap := false
+		for _, fct := range p.Conds {
+			for _, g := range gaps {
+				if fct.Cond != ssa.Value(g.b) {
+					continue
+				}
+				isGap := (g.b.Op == token.NEQ) == fct.Val
+				if isGap && core.Unwrap(p.Resolve(low)) == core.Unwrap(p.Resolve(g.idx)) {
+					atGap = true
+				}
 			}
 		}
+		if atGap {
+			keepNew = true
+		} else {
+			keepNew, cuts = false, -1000000
+		}
+		if !nilRdb {
+			dropRdb = false
+		}
+	})
+	if cuts <= 0 {
+		keepNew = false
 	}
 	// R08.6 joint (computed first: a joint test after the loop also disposes of a snapshot left indexed by the gap branch)
 	joint := false
@@ -1003,7 +1091,9 @@ func ruleVerifyOnOpen(w *core.World, r *core.Report) {
 			if !ok || bad != "" {
 				return
 			}
-			if !core.IsNilConst(p.Resolve(ret.Results[0])) {
+			// a path on which the function can answer "not corrupted": it returns nil, or an error value of
+			// which the path knows nothing (`return err` for the last step)
+			if isNil, known := p.IsNil(ret.Results[0]); known && !isNil {
 				return
 			}
 			n++
@@ -1020,10 +1110,10 @@ func ruleVerifyOnOpen(w *core.World, r *core.Report) {
 				if !ok || c.Op != token.EQL {
 					continue
 				}
-				if core.DependsOn(c.X, isResultOf("*littleEndian).Uint32", -1)) {
+				if core.DependsOn(p.Resolve(c.X), isResultOf("*littleEndian).Uint32", -1)) || core.DependsOn(p.Resolve(c.Y), isResultOf("*littleEndian).Uint32", -1)) {
 					sizeOK = true
 				}
-				if isIfaceCallName(core.Unwrap(c.X), "Sum64") || isIfaceCallName(core.Unwrap(c.Y), "Sum64") {
+				if isIfaceCallName(core.Unwrap(p.Resolve(c.X)), "Sum64") || isIfaceCallName(core.Unwrap(p.Resolve(c.Y)), "Sum64") {
 					crcOK = true
 				}
 			}
